@@ -68,7 +68,7 @@ def gen_cases(seed, tier):
                 cfg['start_chan'] = sc = 0
                 lo_c = 1
         cabs = int(rng.integers(lo_c, sc + nchan))
-        jmax = int(0.4 * L)
+        jmax = min(int(0.4 * L), L // 2 - 2)     # stay >= 1.5 fine bins away from the wrap-around at the coarse-channel edge
         j = int(rng.integers(2, max(3, jmax + 1))) * int(common.pick(rng, [-1, 1]))
         j = max(-jmax, min(jmax, j))
         if abs(j) < 2:
